@@ -90,6 +90,7 @@ func stressLegacy(args []string) error {
 		}
 		return out
 	}
+	fixed := 0 // > 0: the size of the next batch
 	mk := func(id, parent int) *stressHandler {
 		h := &stressHandler{id: id, parent: parent}
 		if parent == 0 {
@@ -98,14 +99,25 @@ func stressLegacy(args []string) error {
 		} else {
 			h.thr = hp[parent].thr
 			h.batch = newBatch(true)
+			for fixed > 0 && len(h.batch) != fixed {
+				h.batch = newBatch(true)
+			}
 			h.acc = append(append([]int{}, hp[parent].acc...), h.batch...)
 		}
 		hp[id] = h
 		return h
 	}
+	// Handlers 3, 4, 5 are a chain of 3 + 1 + 1 attributes: the slices behind 4 and 5 have spare capacity
+	// when WithAttrs appends without clipping, and every goroutine derives from them first.
 	mk(1, 0)
 	mk(2, 0)
-	for id := 3; id <= prebuilt; id++ {
+	fixed = 3
+	mk(3, 1)
+	fixed = 1
+	mk(4, 3)
+	mk(5, 4)
+	fixed = 0
+	for id := 6; id <= prebuilt; id++ {
 		mk(id, 1+rng.IntN(id-1))
 	}
 	type step struct {
@@ -127,7 +139,12 @@ func stressLegacy(args []string) error {
 		for i := 0; i < nr; i++ {
 			if at[i] {
 				nd++
-				h := mk(prebuilt+g*perG+nd, known[rng.IntN(len(known))])
+				parent := known[rng.IntN(len(known))]
+				if nd == 1 {
+					parent, fixed = 4+g%2, 1
+				}
+				h := mk(prebuilt+g*perG+nd, parent)
+				fixed = 0
 				plans[g] = append(plans[g], step{derive: h})
 				known = append(known, h.id)
 			}
